@@ -143,7 +143,16 @@ func genPart(c *ctx, stream string, nFlows, nPars int, o prog.GenOpts, orders in
 				Witness: map[string]interface{}{"engine": "G", "source": readProgSource(co, p.Name), "generated": readProgGen(co, p.Name)}})
 		}
 	}
-	if n := len(co.Dropped); n > 0 && c.Prop != "C15" {
+	ndrop := 0
+	for name, why := range co.Dropped {
+		if c.Prop == "C15" && strings.Contains(why, "does not compile") {
+			if p := findProg(co, name); p != nil && p.Shadow {
+				continue // reported above as a violation of C15
+			}
+		}
+		ndrop++
+	}
+	if n := ndrop; n > 0 {
 		// Well-formed programs that cff refuses, or whose output does not
 		// compile, refute C14 / C13, not this property - but this check then ran
 		// on less than its corpus and must say so.
@@ -260,7 +269,7 @@ func init() {
 	}
 	checks["C15"] = func(c *ctx) {
 		o := prog.DefaultOpts()
-		o.WrapPct, o.InstrPct, o.PredPct, o.FallbackPct, o.ShadowPct, o.BarePct = 70, 50, 30, 30, 50, 40
+		o.WrapPct, o.InstrPct, o.PredPct, o.FallbackPct, o.ShadowPct, o.BarePct = 50, 50, 30, 30, 50, 35
 		g := genPart(c, "C15", c.pick(60, 1500), c.pick(60, 1500), o, 2, "ok,fault", c.pick(3, 6), false,
 			"every argument expression of the directive is wrapped in a logging identity function (>= 3 sites): ctx, Params, Results, Concurrency, ContinueOnError, emitters, instrument names, task/predicate/element/End function expressions, FallbackWith values, collections; "+
 				"or (40% of the programs, 'bare') every argument is a plain local variable - named like a generated identifier where types allow - that the program overwrites with a recognisable replacement (poison token, twin function, marked context, dummy pointer, replacement emitter/name) when the first user function is entered: any replacement observed later means the argument was not evaluated before the tasks started")
